@@ -974,12 +974,12 @@ func TestC11(t *testing.T) {
 	for k := kind(0); k < numKinds; k++ {
 		km[kindName[k]] = ck.kinds[k]
 		if ck.kinds[k] == 0 {
-			core.HarnessError("vacuous: message kind %s never exercised", kindName[k])
+			rep.Vacuous("vacuous: message kind %s never exercised", kindName[k])
 		}
 	}
 	rep.Extra["ops_per_kind"] = km
 	if ck.nKeepAlives == 0 || ck.nUploadEvents == 0 || ck.nOutgrow == 0 || ck.nCut2 == 0 || ck.nDupReject == 0 || hs.acceptRuns == 0 || ck.nPairMsgs == 0 || ck.nPairUploads == 0 {
-		core.HarnessError("vacuous run: keepalives=%d uploads=%d outgrow=%d cut2=%d dup=%d accept=%d", ck.nKeepAlives, ck.nUploadEvents, ck.nOutgrow, ck.nCut2, ck.nDupReject, hs.acceptRuns)
+		rep.Vacuous("vacuous run: keepalives=%d uploads=%d outgrow=%d cut2=%d dup=%d accept=%d", ck.nKeepAlives, ck.nUploadEvents, ck.nOutgrow, ck.nCut2, ck.nDupReject, hs.acceptRuns)
 	}
 	rep.Finish()
 }
